@@ -27,7 +27,7 @@ MODULE = "Sqfs.Props.C02"
 REQUIRED = ["Sqfs.C02." + t for t in (
     "run_eq_spec", "backlog_independent", "run_ok", "dequeue_never_internal_error", "finish_writes_everything",
     "realised_eq_serial", "schedule_independent", "jobs_independent", "times_depend_only_on_source_date_epoch",
-    "source_date_epoch_default", "exCodec_ok")]
+    "source_date_epoch_default", "run_eq_specPack_partial", "exCodec_ok")]
 
 NPOLICY = 10
 FL = {"dc": 1, "dh": 2, "df": 4, "dd": 8, "is": 16}
